@@ -3,6 +3,7 @@
 //! * `h-c07 --dump-sha-gates FILE`: runs the REAL `Sha256Chip::configure` and writes its gate
 //!   polynomials and lookup arguments as expression ASTs (JSON) for `translators/c07_shagates.py`.
 //! * `h-c07 --dump-sha512-gates FILE`: same for the REAL `Sha512Chip::configure`.
+//! * `h-c07 --dump-rmd-gates FILE`: same for the REAL `RipeMD160Chip::configure`.
 //! * `h-c07 --tier T --seed S --out DIR`: correspondence + oracle run.
 use mzkh::Ctx;
 
@@ -10,6 +11,7 @@ mod bytes;
 mod circuits;
 mod poseidon;
 mod rec;
+mod rmdchip;
 mod shachip;
 
 fn main() {
@@ -20,6 +22,24 @@ fn main() {
     }
     if args.len() >= 3 && args[1] == "--dump-sha512-gates" {
         shachip::dump_gates(&args[2], true);
+        return;
+    }
+    if args.len() >= 3 && args[1] == "--dump-rmd-gates" {
+        rmdchip::dump_gates(&args[2]);
+        return;
+    }
+    if args.len() >= 3 && args[1] == "--rmd-trace-debug" {
+        let len: usize = args[2].parse().unwrap();
+        let msg: Vec<u8> = (0..len).map(|j| (j * 7 + 1) as u8).collect();
+        let t = rmdchip::record(&msg);
+        for (k, l) in t.regions.iter().enumerate() {
+            println!("{k} {l}");
+        }
+        for (k, l) in t.witness.iter().enumerate() {
+            println!("W{k} {l}");
+        }
+        println!("outputs {}", t.outputs.join(","));
+        println!("externals {}", t.externals);
         return;
     }
     if args.len() >= 3 && args[1] == "--sha-trace-debug" {
@@ -36,6 +56,11 @@ fn main() {
     let mut ctx = Ctx::from_args("C07");
     // debugging aid: VERIF_C07_ONLY=shachip runs the chip-wiring part alone
     let only = std::env::var("VERIF_C07_ONLY").unwrap_or_default();
+    if only == "rmdchip" {
+        rmdchip::run(&mut ctx);
+        ctx.finish();
+        return;
+    }
     if only == "shachip" {
         shachip::run(&mut ctx);
         ctx.finish();
@@ -44,12 +69,14 @@ fn main() {
     if ctx.search() {
         // the targeted wiring sweep first: it is the one that turns a broken trace tie into a replay
         shachip::run(&mut ctx);
+        rmdchip::run(&mut ctx);
         poseidon::run(&mut ctx);
         bytes::run(&mut ctx);
     } else {
         poseidon::run(&mut ctx);
         bytes::run(&mut ctx);
         shachip::run(&mut ctx);
+        rmdchip::run(&mut ctx);
     }
     ctx.finish();
 }
